@@ -483,6 +483,66 @@ func c08Config(rep *verifkit.Report, rng *rand.Rand, up *sysUpstream, ci int) {
 		}
 	}
 
+	// A flagged client is saved again (same identifiers, same ignore flags,
+	// another tag) WHILE it sends queries: admin requests are not serialised
+	// with DNS requests, and at no instant may the client's queries be logged
+	// or counted.
+	{
+		total := func() int {
+			_, b, _ := in.API("GET", "/control/stats", nil)
+			var v struct {
+				N int `json:"num_dns_queries"`
+			}
+			_ = json.Unmarshal(b, &v)
+
+			return v.N
+		}
+		t1 := total()
+		var ustop atomic.Bool
+		var uwg sync.WaitGroup
+		var sent atomic.Int64
+		for g := 0; g < 4; g++ {
+			uwg.Add(1)
+			go func(g int) {
+				defer uwg.Done()
+				for n := 0; !ustop.Load(); n++ {
+					if _, qerr := sysQuery(in, "127.0.3.7", n%5 == 0, fmt.Sprintf("upd%d-%d-%s.plain.verif.example", g, n, tag), dns.TypeA, 3*time.Second); qerr == nil {
+						sent.Add(1)
+					}
+				}
+			}(g)
+		}
+		updates := 0
+		for u := 0; u < verifkit.Pick(120, 400); u++ {
+			tags := []string{}
+			if u%2 == 0 {
+				tags = []string{"user_admin"}
+			}
+			st, _, aerr := in.API("POST", "/control/clients/update", map[string]any{"name": "ign-ip", "data": map[string]any{
+				"name": "ign-ip", "ids": []string{"127.0.3.7"}, "use_global_settings": true, "use_global_blocked_services": true,
+				"tags": tags, "upstreams": []string{}, "ignore_querylog": true, "ignore_statistics": true}})
+			if aerr == nil && st == 200 {
+				updates++
+			}
+		}
+		ustop.Store(true)
+		uwg.Wait()
+		t2 := total()
+		_, lb, _ := in.API("GET", "/control/querylog?limit=100000&search=upd", nil)
+		rep.Eval(true, fmt.Sprintf("%d|flagged-client-updated-under-traffic", ci))
+		rep.Class("flagged_client_updates_under_traffic")
+		rep.EventN("queries_of_a_flagged_client_during_its_updates", int(sent.Load()))
+		rep.EventN("updates_of_a_flagged_client_under_traffic", updates)
+		if t2 != t1 {
+			rep.Violate("counted-while-flagged-client-was-being-updated", fmt.Sprintf("%d queries of a client flagged ignore_statistics were counted while the client was being saved again with the same flags (%d updates, %d queries)", t2-t1, updates, sent.Load()),
+				map[string]any{"configuration": view, "total_before": t1, "total_after": t2})
+		}
+		if lbl := strings.ToLower(string(lb)); strings.Contains(lbl, "-"+tag+".plain.verif.example") && strings.Contains(lbl, "\"upd") {
+			rep.Violate("logged-while-flagged-client-was-being-updated", "queries of a client flagged ignore_querylog were logged while the client was being saved again with the same flags",
+				map[string]any{"configuration": view, "log_api_head": sysTail(string(lb), 600)})
+		}
+	}
+
 	// ---- Clean shutdown, then the files. ------------------------------------
 	if !in.Stop(20 * time.Second) {
 		rep.Inconcl("server did not stop cleanly; files may be incomplete")
